@@ -44,6 +44,7 @@ type IPPub struct {
 }
 
 type IPCase struct {
+	Transport
 	Subs   []IPSub   `json:"subs"`
 	Inproc [][]IPPub `json:"inproc"` // one list per goroutine calling Server.Publish
 	Raw    [][]IPPub `json:"raw"`    // one list per raw publisher connection
@@ -60,6 +61,7 @@ func runInproc(c IPCase) (fail string, classes []string) {
 	if err != nil {
 		return "fixture: " + err.Error(), nil
 	}
+	c.Transport.apply(b)
 	defer b.Shutdown()
 	payloads := map[int][]byte{}
 	type pub struct {
@@ -322,6 +324,7 @@ func genInproc(t *rapid.T) IPCase {
 	for i, n := 0, rapid.IntRange(0, 2).Draw(t, "nraw"); i < n; i++ {
 		c.Raw = append(c.Raw, genList())
 	}
+	c.Transport = genTransport(t)
 	return c
 }
 
